@@ -24,7 +24,11 @@ if [ $applies = yes ]; then
   rm -f $PLACE
   if go build ./... > $SD/val_build.log 2>&1; then build=ok; else build=fail; fi
   if [ "${SKIP_SUITE:-0}" = 1 ]; then suite=skipped; else
-    if timeout 3000 go test -p ${SUITE_P:-6} -vet=off -count=1 -timeout 25m ./... > $SD/val_suite.log 2>&1; then suite=pass; else suite=fail; fi
+    if timeout 3000 go test -p ${SUITE_P:-6} -vet=off -count=1 -timeout 25m ./... > $SD/val_suite.log 2>&1; then suite=pass; else
+      # timing-dependent tests fail now and then on a loaded machine: re-run the failing packages once on their own
+      pkgs=$(grep -E '^FAIL[[:space:]]+github.com' $SD/val_suite.log | awk '{print $2}' | sort -u | tr '\n' ' ')
+      if [ -n "$pkgs" ] && timeout 1500 go test -p 2 -vet=off -count=1 -timeout 20m $pkgs > $SD/val_suite_rerun.log 2>&1; then suite=pass; else suite=fail; fi
+    fi
   fi
 fi
 python3 - <<PY
